@@ -501,8 +501,17 @@ void HttpRequest::read()
 
 	_path = Url::decode(_res.substring(0, pathend));
 
-	if(_path.contains(".."))
-		_path = _path.replace("..", "");
+	// remove every ".." by length, not with C-string functions: the decoded path can contain NUL bytes (%00),
+	// and String::contains / String::replace do not look behind the first one
+	String clean(_path.length(), 0);
+	for (int k = 0; k < _path.length(); k++)
+	{
+		if (_path[k] == '.' && k + 1 < _path.length() && _path[k + 1] == '.')
+			k++;
+		else
+			clean << _path[k];
+	}
+	_path = clean;
 
 	_path.split('/', _parts);
 	if (_parts.length() > 0)
